@@ -240,3 +240,93 @@ def drive_c04(ctx):
         else:
             v = framegen.valid_arg(rng, '-', '-', ty)
         rec.add('EncodeArg', P, nt=True, **actions.encode_arg(ty, v))
+
+
+# ---------------------------------------------------------------------------
+# C14 / C17  static traces: the generated catalogue, reply codes, constants
+# ---------------------------------------------------------------------------
+def doc_defaults(cls):
+    """{param: token} parsed from the class docstring ('- Default: ``X``')"""
+    import re
+    doc = cls.__doc__ or ''
+    out = {}
+    cur = None
+    for line in doc.splitlines():
+        m = re.match(r'\s*:param (\w+):', line)
+        if m:
+            cur = m.group(1)
+            continue
+        m = re.match(r'\s*- Default: ``(.*)``\s*$', line)
+        if m and cur:
+            out[cur] = m.group(1)
+        if re.match(r'\s*:(type|raises|rtype)', line):
+            pass
+    return out
+
+
+@driver('C14')
+def drive_c14(ctx):
+    from pamqp import commands
+    rec = ctx.rec
+    P = ['C14']
+    if ctx.shard != 0:
+        return
+    items = list(commands.INDEX_MAPPING.items())
+    rec.add('MappingKeys', P, nt=True, keys=sorted(k for k, _ in items), n=len(items))
+    for key, cls in items:
+        slots = list(cls.__slots__)
+        try:
+            o = cls()
+            defaults = []
+            for a in slots:
+                try:
+                    defaults.append(abstract(getattr(o, a)))
+                except AttributeError:
+                    defaults.append({'t': 'other', 'name': '<unset>'})
+        except Exception as e:  # noqa
+            defaults = [{'t': 'other', 'name': 'ctor:' + type(e).__name__} for _ in slots]
+        docs = doc_defaults(cls)
+        types = []
+        for a in slots:
+            try:
+                types.append(str(cls.amqp_type(a)))
+            except Exception:  # noqa
+                types.append('<missing>')
+        rec.add('CatalogEntry', P, nt=True, key=key, name=str(cls.name), frame_id=cls.frame_id, index=cls.index,
+                slots=slots, types=types, sync=bool(cls.synchronous), sync_is_bool=isinstance(cls.synchronous, bool),
+                responses=[str(x) for x in cls.valid_responses], defaults=defaults,
+                docs=[docs.get(a, '') for a in slots], attributes=list(cls.attributes()))
+    pr = commands.Basic.Properties
+    slots = list(pr.__slots__)
+    o = pr()
+    rec.add('PropertiesEntry', P, nt=True, name=str(pr.name), frame_id=pr.frame_id, index=pr.index, slots=slots,
+            types=[str(pr.amqp_type(a)) for a in slots], flags=[int(pr.flags.get(a, -1)) for a in slots],
+            nflags=len(pr.flags), defaults=[abstract(getattr(o, a)) for a in slots])
+    for cname, cid, _ in framegen.cat.CATALOG:
+        k = getattr(commands, cname)
+        rec.add('ClassEntry', P, nt=True, name=cname, frame_id=k.frame_id, index=k.index)
+
+
+@driver('C17')
+def drive_c17(ctx):
+    from pamqp import constants, exceptions
+    rec = ctx.rec
+    P = ['C17']
+    if ctx.shard != 0:
+        return
+    items = list(exceptions.CLASS_MAPPING.items())
+    rec.add('ReplyKeys', P, nt=True, keys=sorted(k for k, _ in items), classes=sorted(set(c.__name__ for _, c in items)))
+    for key, cls in items:
+        rec.add('ReplyCode', P, nt=True, key=key, value=cls.value, name=str(cls.name), cls=cls.__name__,
+                soft=issubclass(cls, exceptions.AMQPSoftError), hard=issubclass(cls, exceptions.AMQPHardError),
+                amqp=issubclass(cls, exceptions.AMQPError), base=issubclass(cls, exceptions.PAMQPException),
+                is_exc=issubclass(cls, Exception))
+    rec.add('Constants', P, nt=True, c={
+        'FRAME_METHOD': constants.FRAME_METHOD, 'FRAME_HEADER': constants.FRAME_HEADER,
+        'FRAME_BODY': constants.FRAME_BODY, 'FRAME_HEARTBEAT': constants.FRAME_HEARTBEAT,
+        'FRAME_MIN_SIZE': constants.FRAME_MIN_SIZE, 'FRAME_END': constants.FRAME_END,
+        'FRAME_HEADER_SIZE': constants.FRAME_HEADER_SIZE, 'FRAME_MAX_SIZE': constants.FRAME_MAX_SIZE,
+        'VERSION': list(constants.VERSION), 'AMQP': list(constants.AMQP),
+        'FRAME_END_CHAR': list(constants.FRAME_END_CHAR), 'REPLY_SUCCESS': constants.REPLY_SUCCESS})
+    rec.add('UnmarshalingExc', P, nt=True, base=issubclass(exceptions.UnmarshalingException, exceptions.PAMQPException),
+            amqp=issubclass(exceptions.UnmarshalingException, exceptions.AMQPError))
